@@ -4,6 +4,7 @@ steps" (`List Step`, `List PStep`, `List PLabel`): each label is one mutex-prote
 The conclusions are the `Spec` predicates the driver evaluates on the implementation's observations.
 -/
 import Otel.C02.Lemmas
+import Otel.C02.Sys
 namespace Otel.C02
 open Spec
 
@@ -120,6 +121,67 @@ theorem sum_add_reaches_every_reader (tps : List Temporality) (steps : List PSte
         exact ⟨idInvCum_step s x h2 h1, by cases x <;> exact h2⟩
     rw [h.1 i, measuredIds_run]
     simp [St.fresh, St.measuredIds]
+
+/-- Histories containing collections that were abandoned before aggregation (context already cancelled / expired when
+`pipeline.produce` consults it after a callback: error, no data): such a collection changes NOTHING — the run is the
+run of the history with those collections erased, so every theorem of this file holds verbatim for histories with
+abandoned collections (they report nothing and consume nothing; the next successful collection reports the data). -/
+theorem abandoned_collection_changes_nothing (s : St) (xs : List XStep) :
+    s.xrun xs = s.run (eraseAbandoned xs) := by
+  induction xs generalizing s with
+  | nil => rfl
+  | cons x l ih =>
+    cases x with
+    | step y => simpa [St.xrun, St.xstep, eraseAbandoned, St.run] using ih (s.step y)
+    | abandoned t => simpa [St.xrun, St.xstep, eraseAbandoned, St.run] using ih s
+
+/-- … in particular delta conservation over histories with abandoned collections: only the collections that
+returned their data are counted, and together with the pending state they still add up to everything measured. -/
+theorem sum_delta_conservation_with_abandoned (limit : Nat) (mono : Bool) (start : Nat) (xs : List XStep) (a : Attr) :
+    let s := (St.fresh .delta limit mono start).xrun xs
+    deltaBalance s.measuredPairs s.reportsPairs (s.pending a) a = true := by
+  intro s
+  have h := sum_delta_conservation limit mono start (eraseAbandoned xs) a
+  have e : s = (St.fresh .delta limit mono start).run (eraseAbandoned xs) :=
+    abandoned_collection_changes_nothing _ xs
+  rw [e]; exact h
+
+/-- provider model: a context cancelled or expired DURING aggregation is not consulted by the current code
+(`pipeline.produce` reads `ctx.Err()` only in the callback loops): the collection is an ordinary one. -/
+theorem cancel_during_aggregation_is_ignored (s : Sys) (i r k : Nat) :
+    s.step i (.colx r k) = s.step i (.col r) ∧ s.step i (.tickx r k) = s.step i (.tick r) ∧
+    s.step i (.flushx k) = s.step i .flush := ⟨rfl, rfl, rfl⟩
+
+/-- provider model: a collection abandoned before aggregation (a callback is registered and the context is already
+done) consumes nothing: every aggregator of every reader is untouched, and the collection reports an error without data. -/
+theorem abandoned_before_aggregation_consumes_nothing (s : Sys) (i r : Nat) (hcb : s.hasCb = true) (hr : r < s.readers.length) :
+    (s.step i (.colc r)).readers = s.readers ∧ (s.step i (.colb r)).readers = s.readers ∧
+    (s.step i (.colc r)).recs = s.recs ++ [{ op := i, reader := r, ok := false, streams := [] }] := by
+  have hget : s.readers[r]? = some s.readers[r] := List.getElem?_eq_getElem hr
+  simp [Sys.step, Sys.collectAbandoned, hget, hcb]
+
+/-- provider model, clause "seen by every registered reader" with rejecting readers: a reader whose aggregation
+selector is rejected for an instrument merely has no stream for it; `Add` still reaches the stream of EVERY reader
+that has one (before, between or after rejecting readers), and only those. -/
+theorem add_reaches_every_present_stream (s : Sys) (i j : Nat) (a : Attr) (v : Int) (r : Nat) :
+    (s.step i (.add j a v)).readers[r]? =
+      (s.readers[r]?).map fun rd => { rd with aggs := rd.aggs.modify j fun g => g.map fun g => g.measure a v i } := by
+  simp [Sys.step]
+
+/-- … and the streams present are decided per (reader, instrument) only: the configuration of one reader never
+influences another reader's streams. -/
+theorem streams_decided_per_reader (rs : List ReaderCfg) (is : List InstCfg) (cb : Bool) (r : Nat) :
+    ((Sys.init rs is cb).readers[r]?).map (·.aggs.map Option.isSome) =
+      (rs[r]?).map fun rc => is.map fun ic => !absent rc ic := by
+  simp only [Sys.init, List.getElem?_map, Option.map_map]
+  cases rs[r]? with
+  | none => rfl
+  | some rc =>
+    simp only [Option.map_some, Function.comp, List.map_map]
+    congr 1
+    apply List.map_congr_left
+    intro ic _
+    by_cases h : absent rc ic <;> simp [h]
 
 /-- Clause "a monotonic sum never decreases when inputs are non-negative", part 1: with non-negative inputs every
 value ever reported (delta or cumulative) is ≥ 0 — in particular every delta increment. -/
@@ -257,6 +319,15 @@ example :
     let steps : List PStep := [(0, .measure 1 5 0), (1, .collect 1), (1, .measure 1 5 0), (0, .collect 2), (1, .collect 3)]
     ((Multi.run ([Temporality.delta, .delta].map fun tp => St.fresh tp) steps).map (·.reportsPairs)) =
       [[[(1, 5)]], [[], [(1, 5)]]] := by
+  decide
+
+/-- non-vacuity: a rejecting reader registered FIRST, a delta and a cumulative reader after it; a collection abandoned
+before aggregation (callback registered) and one cancelled during aggregation -/
+example :
+    let rs : List ReaderCfg := [⟨false, .cumulative, .cumulative, .rejUpdown⟩, ⟨false, .delta, .delta, .none⟩, ⟨false, .cumulative, .cumulative, .none⟩]
+    let s := Sys.run rs [⟨false, true⟩] [.add 0 1 5, .colc 1, .colx 1 0, .add 0 1 (-2), .col 0, .col 1, .col 2] true
+    s.recs.map (fun rc => (rc.reader, rc.ok, rc.streams.map fun st => st.2.2.2)) =
+      [(1, false, []), (1, true, [[(1, 5)]]), (0, true, []), (1, true, [[(1, -2)]]), (2, true, [[(1, 3)]])] := by
   decide
 
 end Otel.C02
